@@ -1,5 +1,8 @@
 import Mouette.Lemmas.CutSourceBridge2
+import Mouette.Lemmas.CutSourceBridge3
+import Mouette.Lemmas.DualBridge
 import Mouette.Props.C16
+import Mouette.Props.C09
 /-!
 # C16 (round 4) — the theorems of `Props/C16.lean` transferred to what the SOURCE says now
 
@@ -198,6 +201,138 @@ theorem euler_characteristic_of_dual_tree_source_partial {nV : Nat} {F : List Fa
   obtain ⟨n1, n2⟩ := uncut_pairs_distinct_source sp interior cut nd valid
   exact Props.C16.euler_characteristic_of_dual_tree_partial2 tri h ps hps n1 n2 tree_size one_class sep
 
+/-! ## round 5: the find loop, the renumbering loop and `order_verts` of `_build_mesh_with_cuts`, as written -/
+
+theorem find_loop_source (uf : State) (faces : List (List Nat)) : C16.findLoop uf faces = findFaces uf faces :=
+  findLoop_bridge uf faces
+
+theorem map_loop_source (m : List (Nat × Nat)) (faces : List (List Nat)) : C16.mapLoop m faces = mapFaces m faces :=
+  mapLoop_bridge m faces
+
+/-- `order_verts = [None]*len(imap)` + the loop over the old vertices, as written, is the model's `orderVerts` for every
+well-formed `imap` (in particular the one the numbering loop builds) -/
+theorem order_verts_source (faces1 : List (List Nat)) (cv : List Nat) :
+    C16.orderLoop (C16.imapLoop faces1).imap cv = orderVerts (buildImap faces1) cv := by
+  rw [(imapLoop_bridge faces1).1]
+  exact orderLoop_bridge (buildImap_spec faces1).1 cv
+
+/-- ALL the stages of `_build_mesh_with_cuts` up to the output faces and vertices, on the extracted definitions: a successful
+build of the model IS the composition corner numbering → union loop → find loop → `imap` numbering → renumbering loop →
+`order_verts` of the translated loops (only the `duplicate_vertices` / `ref_vertex` bookkeeping stays hand-modelled). -/
+theorem build_stages_source {nV : Nat} {F : List Face} {E : List (Nat × Nat)} {interior cut : List Nat} {o : Out}
+    (h : build nV F (uncutPairs E interior cut) = .ok o) :
+    ∃ s1 s2, C16.unionLoop F E cut (C16.cornerLoop F).faces interior (ufRange (3 * F.length)) = some s1 ∧
+      C16.findLoop s1 (C16.cornerLoop F).faces = some (s2, o.roots3) ∧
+      C16.mapLoop (C16.imapLoop o.roots3).imap o.roots3 = some o.faces ∧
+      o.pos = C16.orderLoop (C16.imapLoop o.roots3).imap (C16.cornerLoop F).verts := by
+  unfold build at h
+  simp only [] at h
+  split at h
+  · cases h
+  · rename_i ps hps
+    split at h
+    · cases h
+    · rename_i s2 faces1 hff
+      split at h
+      · cases h
+      · rename_i faces2 hmf
+        split at h
+        · cases h
+        · split at h
+          · cases h
+          · injection h with h
+            subst h
+            refine ⟨applyUnions (ufRange (3 * F.length)) ps, s2, ?_, ?_, ?_, ?_⟩
+            · rw [union_loop_source, hps]; rfl
+            · rw [find_loop_source, (cornerLoop_bridge F).1]; exact hff
+            · rw [map_loop_source, (imapLoop_bridge _).1]; exact hmf
+            · rw [order_verts_source, (cornerLoop_bridge F).2.1]
+
+/-! ## round 5: the dual Dijkstra of `_build_dual_tree_no_features`, as written
+
+`Generated/C16Dual.lean` is the body of `_build_dual_tree_no_features` read imperatively (initialisations, `while not
+queue.empty()`, `queue.get().x`, the `continue` guards, the relaxation with `dist[..]`, `path[..] = e`, `queue.push`, the
+returned set). It simulates the C09 Dijkstra model run on the dual graph (`buildDualTree_sim`), so the C09 theorems apply. -/
+
+section dual
+open Mouette.PQ Mouette.Dijkstra Mouette.DualSrc
+variable (E : List (Nat × Nat)) (f2e : Nat → List Nat) (forbidden : Nat → Bool)
+  (opp : Nat → Nat → Nat → Option Nat) (fd : Nat → Nat → Rat)
+
+/-- BRIDGE: the translated function, run with the model's fuel, ends in a state that simulates the C09 Dijkstra on the dual
+graph from face 0 (same `fvisited`, `dist`, queue; `path[f] = e` iff the model has a predecessor `g`, and `e` joins `g` to `f`) -/
+theorem dual_tree_refines_dijkstra_source (pop : Pop) (nF : Nat) :
+    Sim E f2e forbidden opp
+      (C16D.buildDualTreeNoFeatures pop (fuel (dualAdj E f2e forbidden opp fd) nF) nF E f2e forbidden opp fd).1
+      (run pop (dualAdj E f2e forbidden opp fd) nF 0) :=
+  buildDualTree_sim E f2e forbidden opp fd pop nF
+
+/-- the returned set is `{path[f] for f in id_faces if path[f] is not None}` -/
+theorem dual_tree_result_source (pop : Pop) (fuel nF : Nat) (e : Nat) :
+    e ∈ (C16D.buildDualTreeNoFeatures pop fuel nF E f2e forbidden opp fd).2 ↔
+      ∃ f, f < nF ∧ (C16D.buildDualTreeNoFeatures pop fuel nF E f2e forbidden opp fd).1.path f = some e := by
+  unfold C16D.buildDualTreeNoFeatures
+  simp [idRange, List.mem_filterMap]
+
+/-- TERMINATION: for every min-heap (`PopOK`), non-negative face distances and a mesh with at least one face, the Python
+`while not queue.empty()` has exited by its own condition within the fuel: the queue is empty -/
+theorem dual_tree_terminates_source {pop : Pop} (hpop : PopOK pop) {nF : Nat} (h0 : 0 < nF)
+    (hfd : ∀ g f, 0 ≤ fd g f) (hopp : ∀ a b g f, opp a b g = some f → f < nF) :
+    (C16D.buildDualTreeNoFeatures pop (fuel (dualAdj E f2e forbidden opp fd) nF) nF E f2e forbidden opp fd).1.queue = [] := by
+  have S := buildDualTree_sim E f2e forbidden opp fd pop nF
+  rw [S.queue]
+  exact (final_run hpop (dualAdj_nonneg E f2e forbidden opp fd hfd) (dualAdj_wf E f2e forbidden opp fd hopp) h0).empty
+
+/-- THE TREE EDGES: there is an order of the visited faces (the order in which they were popped) such that every `path[f] = e`
+is a non-forbidden edge of `face_to_edges(g)` whose opposite face is `f`, for a VISITED face `g` that comes BEFORE `f`
+in that order, and `f` is not the root face 0. Following `path` therefore strictly decreases the position: the returned
+edges form a forest of the dual graph rooted at face 0 (no cycle). -/
+theorem dual_tree_is_forest_source {pop : Pop} (hpop : PopOK pop) {nF : Nat} (h0 : 0 < nF)
+    (hfd : ∀ g f, 0 ≤ fd g f) (hopp : ∀ a b g f, opp a b g = some f → f < nF) :
+    let s := (C16D.buildDualTreeNoFeatures pop (fuel (dualAdj E f2e forbidden opp fd) nF) nF E f2e forbidden opp fd).1
+    ∃ order : List Nat, order.Nodup ∧ (∀ f, s.visited f = true ↔ f ∈ order) ∧
+      ∀ f e, s.path f = some e → f ≠ 0 ∧ ∃ g, s.visited g = true ∧ Joins E f2e forbidden opp e g f ∧
+        (s.visited f = true → order.idxOf g < order.idxOf f) := by
+  intro s
+  have S := buildDualTree_sim E f2e forbidden opp fd pop nF
+  have F := final_run hpop (dualAdj_nonneg E f2e forbidden opp fd hfd) (dualAdj_wf E f2e forbidden opp fd hopp) h0
+  obtain ⟨v, b, order, I⟩ := F.reach
+  refine ⟨order, I.order_nodup, ?_, ?_⟩
+  · intro f; show s.visited f = true ↔ _; rw [S.visited]; exact I.vis_iff f
+  · intro f e hfe
+    obtain ⟨g, hg, J⟩ := S.path_some f e hfe
+    obtain ⟨hvis, hne, _, hidx⟩ := I.pred_ok f g hg
+    refine ⟨hne, g, ?_, J, ?_⟩
+    · show s.visited g = true; rw [S.visited]; exact hvis
+    · intro hv; apply hidx; rw [← S.visited]; exact hv
+
+/-- SPANNING: a face is labelled (finite `dist`) exactly when a walk of non-forbidden interior edges joins face 0 to it; every
+such face is visited, and every such face other than face 0 has a tree edge `path[f]` -/
+theorem dual_tree_spans_source {pop : Pop} (hpop : PopOK pop) {nF : Nat} (h0 : 0 < nF)
+    (hfd : ∀ g f, 0 ≤ fd g f) (hopp : ∀ a b g f, opp a b g = some f → f < nF) (f : Nat) :
+    let s := (C16D.buildDualTreeNoFeatures pop (fuel (dualAdj E f2e forbidden opp fd) nF) nF E f2e forbidden opp fd).1
+    ((∃ d, s.dist f = some d) ↔ ∃ l W, PathW (dualAdj E f2e forbidden opp fd) 0 f l W) ∧
+    ((∃ d, s.dist f = some d) → s.visited f = true ∧ (f ≠ 0 → ∃ e, s.path f = some e)) := by
+  intro s
+  have S := buildDualTree_sim E f2e forbidden opp fd pop nF
+  have nn := dualAdj_nonneg E f2e forbidden opp fd hfd
+  have wf := dualAdj_wf E f2e forbidden opp fd hopp
+  have F := final_run hpop nn wf h0
+  constructor
+  · show (∃ d, s.dist f = some d) ↔ _
+    rw [S.dist]; exact Props.C09.reachable_iff_walk hpop nn wf h0 f
+  · rintro ⟨d, hd⟩
+    have hd' : (run pop (dualAdj E f2e forbidden opp fd) nF 0).dist f = some d := by rw [← S.dist]; exact hd
+    refine ⟨by show s.visited f = true; rw [S.visited]; exact F.visited_of_dist hd', ?_⟩
+    intro hne
+    obtain ⟨v, b, order, I⟩ := F.reach
+    obtain ⟨p, hp⟩ := I.pred_some f d hne hd'
+    cases hs : s.path f with
+    | some e => exact ⟨e, rfl⟩
+    | none => rw [S.path_none f hs] at hp; cases hp
+
+end dual
+
 /-! ## non-vacuity: the extracted definitions, run -/
 
 /-- a triangle loop `0-1-2` with a pendant path `2-3-4`, nothing crossed by the dual tree: the path is pruned -/
@@ -228,5 +363,11 @@ example : (C16.cornerLoop [[0, 1, 2], [0, 2, 3]]).faces = [[0, 1, 2], [3, 4, 5]]
 example : ((C16.unionLoop [[0, 1, 2], [0, 2, 3]] [(0, 1), (1, 2), (0, 2), (2, 3), (0, 3)] [0, 1, 3, 4]
     [[0, 1, 2], [3, 4, 5]] [2] (ufRange 6)).map (fun s => s.nComps)) = some 4 := by decide +kernel
 example : (C16.imapLoop [[3, 1, 2], [3, 2, 5]]).imap = [(3, 0), (1, 1), (2, 2), (5, 3)] := by decide +kernel
+
+/-- the dual Dijkstra as written, run: faces 0 and 1 see each other across their edges, face 2 has no opposite face; the
+returned set is the single tree edge 10 (`path[1]`) -/
+example : (C16D.buildDualTreeNoFeatures PQ.pop 20 3 [] (fun g => if g = 0 then [10] else if g = 1 then [10, 11] else [11, 12])
+    (fun _ => false) (fun _ _ g => if g = 0 then some 1 else if g = 1 then some 0 else none) (fun _ _ => 1)).2 = [10] := by
+  decide +kernel
 
 end Mouette.Props.C16Source
